@@ -22,11 +22,12 @@ func init() {
 			{"CONFINEMENT", ruleBusConfinement},
 			{"BUS-BLOCKING", ruleBusBlocking},
 			{"BUS-SUBSCRIBER-LOCAL", ruleBusSubscriberLocal},
+			{"SUB-OWN-CHANGES", ruleSubOwnChanges},
 			{"SUB-CID", ruleSubCid},
 			{"PEER-CONSUMES", rulePeerConsumes},
 		},
 		Meta: eng.PropMeta{
-			Explanation: "Decides the structural side of 'exactly one notification per committed document commit, only for committed changes, in order': (EVENT-ONSUCCESS) every publication of an update event in the module sits inside a callback registered with the transaction's OnSuccess/OnSuccessAsync (one tabled exception re-announcing already committed heads); (EVENT-PAYLOAD) in save and applyDelete every document-level and collection-level AddDelta is followed, on every non-error path to the function's exit, by exactly one OnSuccess registration whose event carries the Cid and the block bytes returned by that same AddDelta; (CONFINEMENT) all bus commands pass the single commandChannel whose only receiver is the one handleChannel goroutine, which delivers in loop order; (BUS-BLOCKING) delivery to a subscriber is an unconditional blocking send — never a select with a default/timeout arm that could drop a notification; (SUB-CID) a subscription evaluates at the Cid and DocID of the received update event; (PEER-CONSUMES) the peer subscribes to update events and hands each to handleLog. (COMMIT-CALLBACKS) as in C05: success callbacks, which carry every update event, run only when the store commit returned nil. (EVENT-COLLECTION-ID) as in C19. (BUS-SUBSCRIBER-LOCAL) subscribing and unsubscribing touch only the subscriber concerned: handleChannel deletes subscriber ids from an event's set, never the set itself, and creates a set only when the event name has none.",
+			Explanation: "Decides the structural side of 'exactly one notification per committed document commit, only for committed changes, in order': (EVENT-ONSUCCESS) every publication of an update event in the module sits inside a callback registered with the transaction's OnSuccess/OnSuccessAsync (one tabled exception re-announcing already committed heads); (EVENT-PAYLOAD) in save and applyDelete every document-level and collection-level AddDelta is followed, on every non-error path to the function's exit, by exactly one OnSuccess registration whose event carries the Cid and the block bytes returned by that same AddDelta; (CONFINEMENT) all bus commands pass the single commandChannel whose only receiver is the one handleChannel goroutine, which delivers in loop order; (BUS-BLOCKING) delivery to a subscriber is an unconditional blocking send — never a select with a default/timeout arm that could drop a notification; (SUB-CID) a subscription evaluates at the Cid and DocID of the received update event; (PEER-CONSUMES) the peer subscribes to update events and hands each to handleLog. (COMMIT-CALLBACKS) as in C05: success callbacks, which carry every update event, run only when the store commit returned nil. (EVENT-COLLECTION-ID) as in C19. (BUS-SUBSCRIBER-LOCAL) subscribing and unsubscribing touch only the subscriber concerned: handleChannel deletes subscriber ids from an event's set, never the set itself, and creates a set only when the event name has none. (SUB-OWN-CHANGES) a GraphQL subscription sends a result only for events of its own collection (the event's CollectionID is compared with the subscribed collection's id on every path to the send) and judges 'nothing matched' on the selection's items, not on the result map, which is never empty.",
 			NotDecided:  "delivery under back-pressure and shutdown, exactly-one results of GraphQL subscriptions against their filter, ordering across concurrent callers (defined by commit completion order at run time)",
 		},
 	})
@@ -524,4 +525,140 @@ func ruleBusSubscriberLocal(c *eng.Ctx) {
 		return true
 	})
 	c.Floor(rule, nDel+nSet, 2)
+}
+
+// ruleSubOwnChanges: a GraphQL subscription yields a result exactly for the committed changes of its
+// own collection that match its filter. The bus carries the update events of every collection (and the
+// collection-level commits of branchable ones), so in handleSubscription:
+//   - the send of a result is unreachable for an event whose CollectionID differs from the subscribed
+//     collection's id (every path to the send passes that comparison; with "differs" assumed the send is
+//     not reached) — otherwise a document of another collection is replayed under the subscribed
+//     collection's ids and reported as one of its documents, or an error result is sent;
+//   - "nothing matched" is not decided by len() of the map RunSelection returns: that map always has the
+//     selection's name as its key (holding an empty list), so such a test never skips and one empty
+//     result is sent for every non-matching change.
+func ruleSubOwnChanges(c *eng.Ctx) {
+	const rule = "SUB-OWN-CHANGES"
+	fi := c.Anchor(rule, "internal/db.(*DB).handleSubscription")
+	if fi == nil {
+		return
+	}
+	info := fi.Pkg.TypesInfo
+	var lit *ast.FuncLit
+	ast.Inspect(fi.Decl.Body, func(m ast.Node) bool {
+		if g, ok := m.(*ast.GoStmt); ok && lit == nil {
+			lit, _ = ast.Unparen(g.Call.Fun).(*ast.FuncLit)
+		}
+		return true
+	})
+	if lit == nil {
+		c.Unknown(rule, "handleSubscription:event-loop", fi.Decl.Pos(), "anchor-unresolved: the goroutine that serves the subscription")
+		return
+	}
+	flow := eng.NewFlow(info, lit.Body)
+	// sends of results
+	var sends []ast.Node
+	ast.Inspect(lit.Body, func(m ast.Node) bool {
+		if s, ok := m.(*ast.SendStmt); ok {
+			if strings.HasSuffix(eng.TypeName(info.TypeOf(s.Value)), "client.GQLResult") {
+				sends = append(sends, s)
+			}
+		}
+		return true
+	})
+	// a comparison of the event's collection id with another collection id
+	cmpTri := func(e ast.Expr) eng.Tri {
+		be, ok := ast.Unparen(e).(*ast.BinaryExpr)
+		if !ok || (be.Op != token.EQL && be.Op != token.NEQ) {
+			return eng.Unknown
+		}
+		isEvtCol := func(x ast.Expr) bool {
+			se, ok := ast.Unparen(x).(*ast.SelectorExpr)
+			return ok && se.Sel.Name == "CollectionID" && strings.HasSuffix(eng.TypeName(info.TypeOf(se.X)), "event.Update")
+		}
+		isColID := func(x ast.Expr) bool {
+			s := eng.ExprStr(resolveLocalExpr(info, lit.Body, x))
+			return strings.Contains(s, "CollectionID") || strings.Contains(s, "SchemaRoot()")
+		}
+		if isEvtCol(be.X) && isColID(be.Y) && !isEvtCol(be.Y) || isEvtCol(be.Y) && isColID(be.X) && !isEvtCol(be.X) {
+			return eng.TriOf(be.Op == token.NEQ) // assume: the event belongs to another collection
+		}
+		return eng.Unknown
+	}
+	hasCmp := func(nd ast.Node) bool {
+		found := false
+		ast.Inspect(nd, func(x ast.Node) bool {
+			if e, ok := x.(ast.Expr); ok && cmpTri(e) != eng.Unknown {
+				found = true
+			}
+			return !found
+		})
+		return found
+	}
+	for i, s := range sends {
+		spt, ok := flow.PointOf(s)
+		if !ok {
+			continue
+		}
+		// go/cfg evaluates the comm clauses of a select before branching: take the point of the clause body
+		unguarded := flow.ReachesWithout(spt, hasCmp, nil)
+		reached := flow.Forward(flow.Entry(), true, eng.Walk{
+			Visit: func(p eng.Point, _ ast.Node) eng.Action {
+				if p == spt {
+					return eng.Hit
+				}
+				return eng.Continue
+			},
+			Edge: func(cond ast.Expr, taken bool) bool {
+				// inside the condition that holds the comparison, the lookup of the subscribed
+				// collection is taken to have succeeded (`err == nil && evt.CollectionID != …`): a
+				// failed lookup is reported to the subscriber by the code that follows
+				inCmp := hasCmp(cond)
+				switch eng.EvalBool(info, cond, func(e ast.Expr) eng.Tri {
+					if t := cmpTri(e); t != eng.Unknown {
+						return t
+					}
+					if be, ok := ast.Unparen(e).(*ast.BinaryExpr); ok && inCmp && (be.Op == token.EQL || be.Op == token.NEQ) {
+						if tv, ok := info.Types[be.Y]; ok && tv.IsNil() && eng.IsErrorType(info.TypeOf(be.X)) {
+							return eng.TriOf(be.Op == token.EQL)
+						}
+					}
+					return eng.Unknown
+				}) {
+				case eng.True:
+					return taken
+				case eng.False:
+					return !taken
+				}
+				return true
+			},
+		})
+		c.Check(!unguarded && !reached, rule, fmt.Sprintf("handleSubscription:send#%d:own-collection-only", i+1), s.Pos(), "events of other collections never reach the result channel",
+			"a result can be sent for an update event whose CollectionID was not compared with the subscribed collection's id: the change of another collection is replayed under this collection's ids — its document is reported as one of this collection's, or an error result is sent")
+	}
+	c.Floor(rule, len(sends), 1)
+	// the emptiness test
+	var mapRes types.Object
+	for _, cs := range eng.Calls(info, lit.Body) {
+		if strings.HasSuffix(cs.Name, "planner.(*Planner).RunSelection") || strings.HasSuffix(cs.Name, "planner.(*Planner).RunRequest") {
+			if as := assignOf(lit.Body, cs.Call); as != nil {
+				mapRes = eng.ObjOf(info, as.Lhs[0])
+			}
+		}
+	}
+	if mapRes == nil {
+		c.Unknown(rule, "handleSubscription:empty-result-skipped", lit.Pos(), "anchor-unresolved: result of RunSelection")
+		return
+	}
+	bad := token.NoPos
+	ast.Inspect(lit.Body, func(m ast.Node) bool {
+		if call, ok := m.(*ast.CallExpr); ok && len(call.Args) == 1 {
+			if id, ok := call.Fun.(*ast.Ident); ok && id.Name == "len" && eng.ObjOf(info, call.Args[0]) == mapRes {
+				bad = call.Pos()
+			}
+		}
+		return true
+	})
+	c.Check(bad == token.NoPos, rule, "handleSubscription:empty-result-skipped", lit.Pos(), "emptiness is judged on the selection's items",
+		"'nothing matched' is decided by len() of the map returned by RunSelection, which always holds the selection's name (with an empty list): the test never skips, and one empty result is sent for every change that does not match the filter")
 }
